@@ -196,7 +196,7 @@ func genC19(rng *rand.Rand, n int, emit func(Case), dist map[string]int) {
 		pcfg := middleware.ProxyConfig{Balancer: c19RecBalancer{rrb, &nextLog}, RetryCount: R}
 		rewriting := rng.Intn(2) == 0
 		if rewriting {
-			pcfg.Rewrite = map[string]string{"/api/*": "/$1", "/files/*": "/static/$1", "/pair/*/of/*": "/p/$2/$1"}
+			pcfg.Rewrite = map[string]string{"/api/*": "/$1", "/files/*": "/static/$1", "/pair/*/of/*": "/p/$2/$1", "/img/*/thumb": "/thumbs/$1_small.png"} // (last: a capture followed by identifier characters)
 		}
 		e.Use(middleware.ProxyWithConfig(pcfg))
 		cur := append([]string(nil), init...)
@@ -258,7 +258,7 @@ func genC19(rng *rand.Rand, n int, emit func(Case), dist map[string]int) {
 				p := paths[rng.Intn(len(paths))]
 				q := queries[rng.Intn(len(queries))]
 				if rewriting && rng.Intn(2) == 0 {
-					p = []string{"/api/", "/api/a%2Fb", "/api/v1", "/files/", "/files/x/y.txt", "/pair/left/of/right", "/pair/l/of/", "/api", "/v1/api/users", "/x/files/y.txt"}[rng.Intn(10)]
+					p = []string{"/api/", "/api/a%2Fb", "/api/v1", "/files/", "/files/x/y.txt", "/pair/left/of/right", "/pair/l/of/", "/api", "/v1/api/users", "/x/files/y.txt", "/img/42/thumb", "/img/a/thumb/b/thumb"}[rng.Intn(12)]
 				}
 				target := p
 				if q != "" {
@@ -273,6 +273,8 @@ func genC19(rng *rand.Rand, n int, emit func(Case), dist map[string]int) {
 						upstreamURI = "/" + target[strings.Index(target, "/api/")+len("/api/"):]
 					case strings.Contains(target, "/files/"):
 						upstreamURI = "/static/" + target[strings.Index(target, "/files/")+len("/files/"):]
+					case strings.Contains(target, "/img/") && strings.HasSuffix(target, "/thumb"):
+						upstreamURI = "/thumbs/" + target[strings.Index(target, "/img/")+len("/img/"):len(target)-len("/thumb")] + "_small.png"
 					case strings.HasPrefix(target, "/pair/") && strings.Contains(target, "/of/"):
 						rest := target[len("/pair/"):]
 						k := strings.Index(rest, "/of/")
